@@ -19,6 +19,7 @@ def run(ctx):
     solveprog.r_solve_program(ctx, {"track", "duals", "return", "generate"})
     wrappers.r_track(ctx)
     wrappers.r_slots(ctx)
+    wrappers.r_mainvars(ctx)    # the residual is the multiplier of `G >> 0`, the one constraint the main variables contribute
     wrappers.r_lmienc(ctx)      # the matrix variable of an LMI carries no constraint of its own besides `M >> 0` (an implicit bound would share the multiplier)
     wrappers.r_sign(ctx)
     wrappers.r_sense(ctx)       # the solver constraint is the constraint as written, unscaled: its multiplier is the constraint's multiplier
